@@ -14,6 +14,7 @@ mod fam_eval;
 mod fam_ext;
 mod fam_partial;
 mod fam_pset;
+mod fam_slice;
 mod fam_store;
 mod fam_tpe;
 mod fam_validate;
@@ -68,6 +69,7 @@ fn family(name: &str) -> Option<(Runner, Driver)> {
         "partial" => (fam_partial::run, fam_partial::drive),
         "tpe" => (fam_tpe::run, fam_tpe::drive),
         "batched" => (fam_batched::run, fam_batched::drive),
+        "slice" => (fam_slice::run, fam_slice::drive),
         _ => return None,
     })
 }
